@@ -28,16 +28,20 @@ inline uint64_t fnv1a(const uint8_t* p, size_t n, uint64_t h = 14695981039346656
   return h;
 }
 
+// JSON string literal; bytes that are not part of a well-formed UTF-8 sequence (RFC 3629) are rendered as the text \xNN
 inline std::string jsonEscape(const std::string& s) {
+  const auto at = [&](size_t k) -> unsigned { return k < s.size() ? static_cast<unsigned char>(s[k]) : 0x100u; };
+  const auto cont = [&](size_t k) { return (at(k) & ~0x3Fu) == 0x80u; };
   std::string o = "\"";
   size_t i = 0;
   while (i < s.size()) {
-    const unsigned char c = static_cast<unsigned char>(s[i]);
-    // keep structurally valid UTF-8, escape everything else
-    size_t n = c < 0x80 ? 1 : (c >> 5) == 6 ? 2 : (c >> 4) == 14 ? 3 : (c >> 3) == 30 ? 4 : 0;
-    bool ok = n > 0 && i + n <= s.size();
-    for (size_t k = 1; ok && k < n; ++k) ok = (static_cast<unsigned char>(s[i + k]) >> 6) == 2;
-    if (!ok) { char b[8]; snprintf(b, sizeof b, "\\\\x%02X", c); o += b; ++i; continue; }
+    const unsigned c = at(i);
+    size_t n = 0;
+    if (c < 0x80) n = 1;
+    else if (c >= 0xC2 && c <= 0xDF) n = cont(i + 1) ? 2 : 0;
+    else if (c >= 0xE0 && c <= 0xEF) n = (cont(i + 1) && cont(i + 2) && !(c == 0xE0 && at(i + 1) < 0xA0) && !(c == 0xED && at(i + 1) >= 0xA0)) ? 3 : 0;
+    else if (c >= 0xF0 && c <= 0xF4) n = (cont(i + 1) && cont(i + 2) && cont(i + 3) && !(c == 0xF0 && at(i + 1) < 0x90) && !(c == 0xF4 && at(i + 1) >= 0x90)) ? 4 : 0;
+    if (n == 0) { char b[8]; snprintf(b, sizeof b, "\\\\x%02X", c); o += b; ++i; continue; }
     if (n == 1) {
       if (c == '"') o += "\\\"";
       else if (c == '\\') o += "\\\\";
